@@ -71,6 +71,13 @@ CHECKS = {
 NOT_APPLICABLE = []
 
 
+SUFFIX = (" As built (DESIGN.md 9): the enumerated alphabets / input families also vary label and ID *types* (float, tuple, "
+          "bytes, frozenset, numpy scalars, mixed, hash-colliding, falsy; NaN in-process), argument container types, attribute "
+          "names, presentations (insertion and adjacency orders, MultiGraph), numeric extremes (counts above 127, probabilities "
+          "0 / 1 / tiny, IDs at the edge of their type) and inputs with two-digit positions; E2 checks re-evaluate the same object "
+          "after in-place detour / morph / rename / grow stages; E1 histories may continue on copies and other twins.")
+
+
 def main():
     checks = []
     for pid in sorted(CHECKS):
@@ -82,7 +89,7 @@ def main():
             "evidence_file": f"/verif/evidence/{pid}.json",
             "replay_cmd_template": "/venv/bin/python /verif/run replay {path}",
             "engine": "xmc",
-            "level_claimed": {"category": "model_checking", "text": text, "design_ref": f"DESIGN.md section 5 {pid}"},
+            "level_claimed": {"category": "model_checking", "text": text + SUFFIX, "design_ref": f"DESIGN.md section 5 {pid} and section 9 (as built)"},
             "level_note": note,
             "technique": tech,
         })
